@@ -115,6 +115,16 @@ def build(rng, tier):
             for i in range(1, n - 1) if n > 2 else []:
                 if rng.random() < 0.7:
                     flat[i * L + dirty] = rng.choice([float("nan"), float("inf"), float("-inf"), 1.5e308, -1.7e308])
+        if S == "F" and L >= 2 and near is None and dirty is None and rng.random() < 0.2:
+            # lanes in units many orders of magnitude apart (all finite, far from overflow within each lane): 1e-30 next to 1e295 —
+            # any scaling decided over the whole block (seed C08-r7m1: a right-hand side "balanced" by its largest entry over all
+            # lanes) flushes the small lane; each lane must still be what it is alone
+            facs = [rng.choice([1.0, 1e295, 1e-30, 1e-290, 1e150, 2.0 ** -500]) for _ in range(L)]
+            if len(set(facs)) == 1:
+                facs[0], facs[1] = 1e295, 1e-30
+            for i in range(n):
+                for j in range(L):
+                    flat[i * L + j] *= facs[j]
         def mk(sh, fl, b, dt="dyn", nd_=False):
             # the n-d interpolator is exercised with every data layout (permuted / reversed trailing axes included) and, for a
             # third of the groups, through interp_array_into with a buffer of another layout
